@@ -373,10 +373,15 @@ Definition ctor_num (k : kind) (l r m e : Z) : res fx :=
     then Ok (l, r, Z.quot val unit)              (* int(val / 2**exp) truncates toward zero *)
     else Err ERange.
 
-(** [a == m*2^e] : [type(self)(other) == self] *)
+(** [a == m*2^e]: [_is_exact] first - a number that is not a multiple of 2^right is a value
+    of no object of the format, the answer is False without constructing anything;
+    otherwise [type(self)(other) == self] (the constructor rejects numbers outside the range) *)
 Definition eq_num (k : kind) (a : fx) (m e : Z) : res bool :=
   let '(l, r, raw) := a in
-  c <- ctor_num k l r m e ;; eq_fx k c a.
+  let s := Z.min e r in
+  if (m * p2 (e - s)) mod p2 (r - s) =? 0
+  then c <- ctor_num k l r m e ;; eq_fx k c a
+  else Ok false.
 
 (** [T(v)] for a Signed (sg = true) or Unsigned vector of width w, value val *)
 Definition k_conv (k : kind) := match k with SFixed => s_conv | UFixed => u_conv end.
@@ -411,13 +416,6 @@ Definition ctor_fix (k : kind) (l r : Z) (x : fx) : res fx :=
   else if r >? sr then Err EAssert      (* assert self.right() <= val.right() *)
   else
     y <- k_resize k (to_vec k x) W (sr - r) ;; z <- k_conv k W y ;; fin k l r z.
-
-(** [a == m*2^e] after C19_eq_fix.diff (NOT in /repo): a number that is not a value of
-    the format differs from every object of it *)
-Definition eq_num_eqfix (k : kind) (a : fx) (m e : Z) : res bool :=
-  let '(l, r, raw) := a in
-  let s := Z.min e r in
-  if (m * p2 (e - s)) mod p2 (r - s) =? 0 then eq_num k a m e else Ok false.
 
 (* ------------------------------------------------------------------------- *)
 (** ** PART 2: the specification (scaled integers; value of (l, r, raw) = raw * 2^r) *)
@@ -472,23 +470,18 @@ Definition out_fx (x : res fx) : out :=
 Definition out_bool (x : res bool) : out :=
   match x with Ok b => VBool b | Err e => VErr e end.
 
-Definition run_with (eqn : kind -> fx -> Z -> Z -> res bool) (o : op) : out :=
+Definition run (o : op) : out :=
   match o with
   | OResize k sl sr raw l r rs os => out_fx (resize k (sl, sr, raw) l r rs os)
   | OAdd k l1 r1 a l2 r2 b => out_fx (add k (l1, r1, a) (l2, r2, b))
   | OSub k l1 r1 a l2 r2 b => out_fx (sub k (l1, r1, a) (l2, r2, b))
   | OMul k l1 r1 a l2 r2 b => out_fx (mul k (l1, r1, a) (l2, r2, b))
   | OEq k l1 r1 a l2 r2 b => out_bool (eq_fx k (l1, r1, a) (l2, r2, b))
-  | OEqNum k l r raw m e => out_bool (eqn k (l, r, raw) m e)
+  | OEqNum k l r raw m e => out_bool (eq_num k (l, r, raw) m e)
   | OCtorNum k l r m e => out_fx (ctor_num k l r m e)
   | OCtorVec k l r sg w val => out_fx (ctor_vec k l r sg w val)
   | OCtorFix k l r sl sr raw => out_fx (ctor_fix k l r (sl, sr, raw))
   end.
-
-(** the code as it is in /repo *)
-Definition run := run_with eq_num.
-(** the code after seeded/_proposed_fixes/C19_eq_fix.diff *)
-Definition run_eqfix := run_with eq_num_eqfix.
 
 Definition err_eqb (a b : err) : bool :=
   match a, b with
@@ -507,4 +500,3 @@ Definition out_eqb (a b : out) : bool :=
 
 (** a generated case: the operation and the result recorded from the real code *)
 Definition agrees (c : op * out) : bool := out_eqb (run (fst c)) (snd c).
-Definition agrees_eqfix (c : op * out) : bool := out_eqb (run_eqfix (fst c)) (snd c).
